@@ -56,6 +56,14 @@ func (s *Subscription[T]) Close() {
 		return // already closed
 	}
 
+	// A publisher can be blocked sending to this subscription while holding
+	// the topic lock that unsubscribeID needs. Keep discarding values until
+	// the topic has closed the channel, so that neither side gets stuck.
+	go func(ch <-chan T) {
+		for range ch {
+		}
+	}(s.ch)
+
 	s.topic.unsubscribeID(s.id)
 	s.ch = nil
 	s.topic = nil
